@@ -1,8 +1,8 @@
 #!/bin/bash
 # tools/try_seed.sh <PROP> [check-args...]  -- apply /tmp/seed_<PROP>/seed/patch.diff (or seeded/<PROP>/patch.diff) to a scratch copy and run the property's check
 P=$1; shift
-D=/verif/seeded/$P/patch.diff; [ -f $D ] || D=/tmp/seed_$P/seed/patch.diff
+D=/verif/seeded/$P/patch.diff; [ -f $D ] || D=/tmp/seed_$P/seed/patch.diff; CP=${CHECKPROP:-$(echo $P | cut -c1-3)}
 S=/tmp/ms_$P; rm -rf $S; mkdir -p $S; cp -r /repo/amgcl $S/
 (cd $S && patch -p1 < $D > /dev/null) || { echo "PATCH FAILED"; exit 3; }
-cd /verif && VERIF_REPO=$S VERIF_JOBS=${VERIF_JOBS:-6} ./check ${CHECKPROP:-$P} "$@" 2>&1 | grep -E "VIOLATION|obligation=|ERROR|discharged" | head -12
+cd /verif && VERIF_REPO=$S VERIF_JOBS=${VERIF_JOBS:-6} ./check $CP "$@" 2>&1 | grep -E "VIOLATION|obligation=|ERROR|discharged" | head -12
 rm -rf $S
